@@ -9,6 +9,7 @@ import (
 
 	"github.com/prometheus/client_golang/prometheus"
 
+	"github.com/thanos-io/thanos/pkg/store/storepb/prompb"
 	"github.com/thanos-io/thanos/pkg/verifhook/vfkit"
 )
 
@@ -144,10 +145,24 @@ func TestVF_C19(t *testing.T) {
 	var maxSteps int64
 	defer func() { r.Extra("max_scan_steps_without_progress_in_terminating_or_aborted_builds", maxSteps) }()
 
+	secs := map[string]float64{} // informational only (where the run time goes); never used by the oracle
+	defer func() { r.Extra("seconds_by_variant_and_n", secs) }()
 	for c, cfg := range cfgs {
 		if !r.Want(c) {
 			continue
 		}
+		t0 := time.Now()
+		stop := vfc19RunCfg(t, r, c, cfg, tenants, series, &maxSteps)
+		secs[fmt.Sprintf("%s/n=%d", cfg.Variant, len(cfg.eps))] += time.Since(t0).Seconds()
+		if stop {
+			return
+		}
+	}
+}
+
+// vfc19RunCfg decides one configuration; it returns true when the run must stop (backstop fired).
+func vfc19RunCfg(t *testing.T, r *vfkit.Run, c int, cfg *vfc19Cfg, tenants []string, series *prompb.TimeSeries, maxSteps *int64) bool {
+	{
 		sizes := vfc18kZoneSizes(cfg.eps)
 		predicted := len(sizes) > 1 && cfg.RF > vfc18kBalancedCapacity(sizes)
 		key := fmt.Sprintf("%s|%v|%s|rf=%d|ss=%d|off=%v", cfg.Variant, cfg.Layout, cfg.Naming, cfg.RF, cfg.Shard, cfg.ZoneOff)
@@ -158,8 +173,8 @@ func TestVF_C19(t *testing.T) {
 		out := vfc19Guarded(cfg.sections, vfc19Backstop, func() { ring, err = vfc19Build(cfg) })
 		r.Eval(1)
 		r.Count("scan_events", int(out.Events))
-		if out.MaxSteps > maxSteps {
-			maxSteps = out.MaxSteps
+		if out.MaxSteps > *maxSteps {
+			*maxSteps = out.MaxSteps
 		}
 		if cfg.Variant != "hashmod" && len(cfg.Layout) > 1 {
 			r.Distinct(key)
@@ -167,7 +182,7 @@ func TestVF_C19(t *testing.T) {
 		switch {
 		case out.TimedOut:
 			r.Inconclusive(fmt.Sprintf("construction of %s neither returned nor completed a lap within %s; run stopped (goroutine cannot be cancelled)", key, vfc19Backstop))
-			return
+			return true
 		case out.Lap != nil:
 			r.Count("nonterminating_constructions", 1)
 			fp := "construct:ketama:lap-without-progress:rf-exceeds-zone-balanced-capacity"
@@ -176,15 +191,15 @@ func TestVF_C19(t *testing.T) {
 			}
 			r.Violation(c, fp, fmt.Sprintf("NewMultiHashring(%s, RF=%d) over zone sizes %v never terminates: section %d scanned the whole ring (%d steps) with %d replicas chosen and none can be added",
 				cfg.Variant, cfg.RF, cfg.Layout, out.Lap.Section, out.Lap.Steps, out.Lap.Replicas), map[string]any{"config": cfg, "lap": out.Lap})
-			continue
+			return false
 		case out.Panic != nil:
 			r.Violation(c, "construct:panic:"+cfg.Variant, fmt.Sprintf("NewMultiHashring panicked: %v", out.Panic), map[string]any{"config": cfg, "panic": fmt.Sprint(out.Panic), "stack": out.Stack})
-			continue
+			return false
 		}
 		if err != nil {
 			r.Count("clean_errors_construct", 1)
 			r.Sample(map[string]any{"config": key, "outcome": "error: " + err.Error()})
-			continue
+			return false
 		}
 		r.Count("rings_built", 1)
 		// A ring was returned: it must be usable, i.e. GetN for n < RF returns (endpoint or error) in bounded steps.
@@ -210,7 +225,7 @@ func TestVF_C19(t *testing.T) {
 			switch {
 			case gout.TimedOut:
 				r.Inconclusive(fmt.Sprintf("GetN on %s neither returned nor completed a lap within %s; run stopped", key, vfc19Backstop))
-				return
+				return true
 			case gout.Lap != nil:
 				r.Count("nonterminating_getn", 1)
 				r.Violation(c, "getn:shuffle-subring:lap-without-progress", fmt.Sprintf("GetN(tenant %q) on the ring built from %s never terminates: the tenant's sub-ring construction scanned the whole sub-ring (%d steps) with %d replicas chosen",
@@ -230,4 +245,5 @@ func TestVF_C19(t *testing.T) {
 		ring.Close()
 		r.Sample(map[string]any{"config": key, "outcome": "ring", "scan_events": out.Events, "max_steps_without_progress": out.MaxSteps})
 	}
+	return false
 }
